@@ -1299,6 +1299,75 @@ pub broadcast proof fn lemma_map_insert_existing_dom<K, V>(m: Map<K, V>, k: K, v
     assert(m.insert(k, v).dom() =~= m.dom());
 }
 
+// ---------------------------------------------------------------- wake-ups (C05: no decision is lost)
+// The predicates are opaque: callers of the helpers carry them around without the quantifiers inside.
+/// job `u` will be looked at again: a signal for it is queued, or it was already considered in this generation
+#[verifier::opaque]
+spec fn woken(sigs: Seq<Signal>, jobs: Seq<NodeInfo>, u: usize, gen: usize) -> bool {
+    (exists|k: int| 0 <= k < sigs.len() && (#[trigger] sigs[k]).node_idx == u) || jobs[u as int].last_considered_in_gen >= gen
+}
+
+#[verifier::opaque]
+spec fn gen_mono(a: Seq<NodeInfo>, b: Seq<NodeInfo>) -> bool {
+    a.len() == b.len() && forall|i: int| 0 <= i < a.len() ==> (#[trigger] b[i]).last_considered_in_gen >= a[i].last_considered_in_gen
+}
+
+spec fn is_parked_eph(s: JobState) -> bool {
+    s == JobState::Ephemeral(JobStateEphemeral::ReadyButDelayed) || s == JobState::Ephemeral(JobStateEphemeral::NotReady(ValidationStatus::Validated))
+}
+
+spec fn is_delayed_eph(s: JobState) -> bool {
+    s == JobState::Ephemeral(JobStateEphemeral::ReadyButDelayed)
+}
+
+/// every Ephemeral direct upstream of `n` that is parked (validated, waiting to learn whether it is needed) will be considered again
+#[verifier::opaque]
+spec fn parked_ups_woken(dag: &GraphType, j0: Seq<NodeInfo>, sigs: Seq<Signal>, jobs: Seq<NodeInfo>, n: usize, gen: usize) -> bool {
+    forall|u: usize| #![trigger dag.is_nbr(n, Direction::Incoming, u)] dag.is_nbr(n, Direction::Incoming, u) && is_parked_eph(j0[u as int].state)
+        ==> woken(sigs, jobs, u, gen)
+}
+
+/// every delayed Ephemeral direct upstream of `n` will be considered again
+#[verifier::opaque]
+spec fn delayed_ups_woken(dag: &GraphType, j0: Seq<NodeInfo>, sigs: Seq<Signal>, jobs: Seq<NodeInfo>, n: usize, gen: usize) -> bool {
+    forall|u: usize| #![trigger dag.is_nbr(n, Direction::Incoming, u)] dag.is_nbr(n, Direction::Incoming, u) && is_delayed_eph(j0[u as int].state)
+        ==> woken(sigs, jobs, u, gen)
+}
+
+/// every direct downstream of `n` will be considered again
+#[verifier::opaque]
+spec fn downs_woken(dag: &GraphType, sigs: Seq<Signal>, jobs: Seq<NodeInfo>, n: usize, gen: usize) -> bool {
+    forall|d: usize| #![trigger dag.is_nbr(n, Direction::Outgoing, d)] dag.is_nbr(n, Direction::Outgoing, d) ==> woken(sigs, jobs, d, gen)
+}
+
+proof fn lemma_woken_stable(s0: Seq<Signal>, s1: Seq<Signal>, j0: Seq<NodeInfo>, j1: Seq<NodeInfo>, u: usize, gen: usize, n: nat)
+    requires woken(s0, j0, u, gen), sig_ext_consider(s0, s1, n), gen_mono(j0, j1), u < j0.len(),
+    ensures woken(s1, j1, u, gen),
+{
+    reveal(woken);
+    reveal(gen_mono);
+    if exists|k: int| 0 <= k < s0.len() && (#[trigger] s0[k]).node_idx == u {
+        let k = choose|k: int| 0 <= k < s0.len() && (#[trigger] s0[k]).node_idx == u;
+        assert(s1[k] == s0[k]);
+    }
+}
+
+proof fn lemma_gen_mono_refl(a: Seq<NodeInfo>)
+    ensures gen_mono(a, a),
+{
+    reveal(gen_mono);
+}
+
+proof fn lemma_gen_mono_trans(a: Seq<NodeInfo>, b: Seq<NodeInfo>, c: Seq<NodeInfo>)
+    requires gen_mono(a, b), gen_mono(b, c),
+    ensures gen_mono(a, c),
+{
+    reveal(gen_mono);
+    assert forall|i: int| 0 <= i < a.len() implies (#[trigger] c[i]).last_considered_in_gen >= a[i].last_considered_in_gen by {
+        assert(b[i].last_considered_in_gen >= a[i].last_considered_in_gen);
+    }
+}
+
 // ---------------------------------------------------------------- requirement propagation (C02, C04)
 /// the dependency a -> b is marked "the consumer needs its upstream to run"
 spec fn req_yes(dag: &GraphType, a: usize, b: usize) -> bool {
